@@ -176,6 +176,9 @@ class LaTeXRenderer(BaseRenderer):
                     '{inner}'
                     '\\end{{document}}\n')
         self.footnotes.update(token.footnotes)
+        # the packages are collected while the document is rendered;
+        # do not carry over those of a document rendered earlier by this instance.
+        self.packages = {}
         return template.format(inner=self.render_inner(token),
                                packages=self.render_packages())
 
